@@ -161,6 +161,32 @@ func runC12(c *Ctx) {
 		c.undecided("R3", "instance-floor", "", fmt.Sprintf("%d parser call sites with an error result, 100 confirmed by hand", m))
 	}
 
+	// R5 no re-positioning
+	c.note("R5 no-repositioning: an error that already carries a position (SyntaxError, RuntimeError, JsonError) is never turned into text and re-created at another node: every err.Error() call in package lang is applied to an error whose kinds are raw / foreign (or a control-flow sentinel being named in a message).")
+	{
+		ek := EKOf(p)
+		n := 0
+		for _, fn := range p.Funcs {
+			if !p.InLang(fn) || p.inTestFile(fn) {
+				continue
+			}
+			for _, call := range callsIn(fn) {
+				cc := call.Common()
+				if !cc.IsInvoke() || cc.Method.Name() != "Error" || !isErrorType(cc.Value.Type()) {
+					continue
+				}
+				n++
+				k := ek.KindsPathwise(cc.Value, call.Block(), 6)
+				bad := k & (KSyntax | KRuntime | KJson | KUnknown)
+				key := fmt.Sprintf("error-text #%d in %s", n, shortName(fn))
+				c.check(bad == 0, "R5", key, p.InstrPos(call), "text of a "+ek.kindNames(k)+" error", "the text of an error that may already be a positioned "+ek.kindNames(bad)+" is taken here to build a new error: the position the user sees is this node's, not the one where the fault is")
+			}
+		}
+		if n < 12 {
+			c.undecided("R5", "instance-floor", "", fmt.Sprintf("%d err.Error() sites in package lang, 18 confirmed by hand", n))
+		}
+	}
+
 	// R4 cli rendering
 	c.note("R4 cli-rendering: printError prints SrcLine, a caret at column Col+1, Line and Message of the error value it was given, for syntax and runtime errors alike.")
 	pe := p.CliFunc("printError")
